@@ -255,7 +255,7 @@ TABLE = [
     Spec("AssignmentTrans", "node", (GENERIC,), {},
          ctors=[{"active_variables": {"$syms": ["x", "y", "t"]}},
                 {"active_variables": {"$syms": ["a", "b", "c", "x"]}},
-                {"active_variables": {"$syms": []}}],
+                {"active_variables": {"$syms": ["k", "it"]}}],
          prefer=("Assignment",)),
 ]
 BYNAME = {spec.name: spec for spec in TABLE}
@@ -330,9 +330,17 @@ def make(spec, ctor, root):
                 if routines:
                     table = routines[0].symbol_table
                     for name in val["$syms"]:
-                        sym = table.lookup(name, otherwise=None)
-                        if sym is not None:
-                            syms.append(sym)
+                        try:
+                            syms.append(table.lookup(name))
+                        except KeyError:
+                            pass
+                    if not syms:
+                        from psyclone.psyir.symbols import DataSymbol
+                        syms = table.datasymbols[:2]
+            if not syms:
+                # the constructor insists on at least one variable
+                from psyclone.psyir.symbols import DataSymbol, REAL_TYPE
+                syms = [DataSymbol("c26_active", REAL_TYPE)]
             val = syms
         kwargs[key] = val
     return spec.cls(**kwargs)
@@ -624,12 +632,18 @@ def _penc(val, depth, path):
     if id(val) in path or depth > 6:
         return ["ref", type(val).__name__]
     if isinstance(val, Node):
-        if val.parent is not None:
-            # a link into a tree (normally the one being snapshotted)
+        top = val.root
+        if top is _PSNAP["root"]:
+            # a link into the tree being snapshotted
             return ["noderef", type(val).__name__]
-        path.add(id(val))
-        out = ["tree", _psnap_node(val, path)]
-        path.discard(id(val))
+        # a foreign tree (e.g. the kernel schedule cached in a CodedKern,
+        # which sits inside its own Container): part of the state
+        if id(top) in path:
+            return ["ref", type(val).__name__]
+        path.add(id(top))
+        out = ["tree", type(val).__name__, val.abs_position
+               if top is not val else 0, _psnap_node(top, path)]
+        path.discard(id(top))
         return out
     if isinstance(val, (list, tuple)):
         path.add(id(val))
@@ -682,8 +696,15 @@ def _psnap_node(node, path):
     return [type(node).__name__, attrs, kids, table]
 
 
+_PSNAP = {"root": None}
+
+
 def psy_snap(root):
-    return {"tree": _psnap_node(root, set()), "text": None}
+    _PSNAP["root"] = root
+    try:
+        return {"tree": _psnap_node(root, set()), "text": None}
+    finally:
+        _PSNAP["root"] = None
 
 
 # ----------------------------------------------------------------------
@@ -821,6 +842,10 @@ class PsyEnv:
 
     def _create(self, cached=True):
         from psyclone.psyGen import PSyFactory
+        from psyclone.psyir.transformations import PSyDataTrans
+        # region names of PSyData setup steps come from a process-global
+        # counter: every build starts from the same state
+        PSyDataTrans._used_kernel_names = {}
         info = self._info(cached)
         psy = PSyFactory(self.API_NAME[self.api],
                          distributed_memory=self.dist_mem).create(info)
